@@ -1,0 +1,63 @@
+//go:build verif
+
+// Package verifhook holds the scheduling-jitter hook used by the verification harness in /verif.
+package verifhook
+
+import (
+	"math/rand"
+	"os"
+	"runtime"
+	"strconv"
+	"sync"
+	"time"
+)
+
+var (
+	once    sync.Once
+	mu      sync.Mutex
+	rng     *rand.Rand
+	enabled bool
+	lastIdx = map[string]int{}
+	report  string
+)
+
+func setup() {
+	seed, err := strconv.ParseInt(os.Getenv("GOFASTA_VERIF_SEED"), 10, 64)
+	if err != nil || seed == 0 {
+		return
+	}
+	rng = rand.New(rand.NewSource(seed))
+	enabled = true
+	report = os.Getenv("GOFASTA_VERIF_REPORT")
+}
+
+// Jitter is called by a worker just before it sends record idx downstream. Under the verif tag and with
+// GOFASTA_VERIF_SEED set it sleeps or yields pseudo-randomly, so that completion order differs from arrival order,
+// and appends a line to the file named by GOFASTA_VERIF_REPORT whenever a record overtakes an earlier one.
+func Jitter(site string, idx int) {
+	once.Do(setup)
+	if !enabled {
+		return
+	}
+	mu.Lock()
+	r := rng.Intn(8)
+	d := time.Duration(rng.Intn(1500)) * time.Microsecond
+	mu.Unlock()
+	switch {
+	case r < 3:
+		time.Sleep(d)
+	case r < 6:
+		runtime.Gosched()
+	}
+	mu.Lock()
+	if last, ok := lastIdx[site]; ok && idx < last && report != "" {
+		if f, err := os.OpenFile(report, os.O_APPEND|os.O_CREATE|os.O_WRONLY, 0644); err == nil {
+			f.WriteString(site + " " + strconv.Itoa(idx) + " after " + strconv.Itoa(last) + "\n")
+			f.Close()
+		}
+	}
+	if idx > lastIdx[site] {
+		lastIdx[site] = idx
+	}
+	mu.Unlock()
+}
